@@ -68,3 +68,8 @@ CHECKS["C14"] = {
   "note": "Unique class names per case; hybrid roots passed as their _XoStruct; arrays and unions carry no declared dependencies.",
   "technique": "exhaustive small-scope enumeration + property-based testing of generated class graphs against a harness-side dependency model, cffi and gcc as acceptance oracles",
 }
+CHECKS["C19"] = {
+  "text": "Exploration: (a) generated HybridClass definitions (10 scalar kinds, String, scalar arrays 1-3 dims static/dynamic any axis order, nested hybrid classes to depth 2/3, Ref to hybrid classes, _rename, declared defaults and default factories) x values with absent / equal-to-default / arbitrary fields: from_dict(to_dict()) read through attributes and through the struct equals the object and the model (same or other context, fixpoint on a second cycle), default elision of scalar/string/static-array fields, __class__ keys; (b) generated reference-free struct / 1-D array types x values: T(x._to_json()) equals x, _to_json fixpoint, and the same through json text with the library's JEncoder. 16 workers x 1500 / 15000 cases + corpus of fixed defects.",
+  "note": "Value equality (-0.0 == 0.0, NaN == NaN, Ref fields by referent value). JSON text only for types without Float32 leaves.",
+  "technique": "property-based round-trip testing over generated class definitions, types and values",
+}
